@@ -182,6 +182,9 @@ def main(tier, seed):
     # coq/theories/GenLife.v): the kernel's table must carry, for every registered Generic, the key of the token it last drew
     import p_c16
     p_c16.genlife(chk, st, prop="C20")
+    # ... and the one key that is built without a TokenFactory: the Async adapter's, read back from the kernel's table
+    import p_adaptkey
+    p_adaptkey.stage(chk, "C20")
     impl, model, m2, ilog, mlog = run_all(chk, cases)
     diffs = [(c, a, b) for c, a, b in zip(cases, impl, model) if a != b]
     bad = oracle(cases, impl, m2)
@@ -218,6 +221,9 @@ def main(tier, seed):
 
 
 def replay(path):
+    if "adaptkey case" in open(path).read():
+        import p_adaptkey
+        return p_adaptkey.replay(path, "C20")
     if "genlife case:" in open(path).read():
         import p_c16
         return p_c16.replay(path)
